@@ -41,6 +41,27 @@ void h_drive(void) { cv_i32 x = nondet_unsigned(); drive_reset(); cv_i32 r = dri
 void h_drive(void) { cv_i32 x = nondet_unsigned(); drive_reset(); cv_i32 r = drive_join(x); __CPROVER_assert(r == 1, "scenario completed");
   RUNS(0, 1); __CPROVER_assert(G_g_seen_value == (cv_i32)(x + 1), "join(): the value is returned"); COMMON_END(1); }
 #endif
+#ifdef DRV_join_throw
+void h_drive(void) { cv_i32 x = nondet_unsigned(); __CPROVER_assume(x != (cv_i32)-1); drive_reset(); cv_i32 r = drive_join_throw(x); __CPROVER_assert(r == 1, "scenario completed");
+  RUNS(1, 1); __CPROVER_assert(G_g_seen_exc == x && G_g_seen_value == -1, "join(): the coroutine's exception is rethrown to the joiner"); COMMON_END(1); }
+#endif
+#ifdef DRV_join_void
+void h_drive(void) { cv_i32 x = nondet_unsigned(); drive_reset(); cv_i32 r = drive_join_void(x); __CPROVER_assert(r == 1, "scenario completed");
+  RUNS(0, 1); __CPROVER_assert(G_g_seen_value == 1 && G_g_seen_exc == -1, "async<void>::join(): returns normally after the body ran"); COMMON_END(1); }
+#endif
+#ifdef DRV_join_void_throw
+void h_drive(void) { cv_i32 x = nondet_unsigned(); __CPROVER_assume(x != (cv_i32)-1); drive_reset(); cv_i32 r = drive_join_void_throw(x); __CPROVER_assert(r == 1, "scenario completed");
+  RUNS(1, 1); __CPROVER_assert(G_g_seen_exc == x && G_g_seen_value == -1, "async<void>::join(): the coroutine's exception is rethrown to the joiner"); COMMON_END(1); }
+#endif
+#define ACC_OK __CPROVER_assert(G_g_acc_allocs == 1 && G_g_acc_deallocs == 1 && G_g_acc_dealloc_ptr == G_g_acc_ptr && G_g_acc_dealloc_sz == G_g_acc_alloc_sz, "storage policy: the frame's block is handed back exactly once, same pointer, same size as requested")
+#ifdef DRV_alloc_value
+void h_drive(void) { cv_i32 x = nondet_unsigned(); drive_reset(); G_g_acc_allocs = 0; G_g_acc_deallocs = 0; cv_i32 r = drive_alloc_value(x); __CPROVER_assert(r == 1, "scenario completed");
+  RUNS(0, 1); __CPROVER_assert(G_g_seen_value == (cv_i32)(x + 1), "with_allocator: the value reaches the returned future"); ACC_OK; COMMON_END(1); }
+#endif
+#ifdef DRV_alloc_never_started
+void h_drive(void) { cv_i32 x = nondet_unsigned(); drive_reset(); G_g_acc_allocs = 0; G_g_acc_deallocs = 0; cv_i32 r = drive_alloc_never_started(x); __CPROVER_assert(r == 1, "scenario completed");
+  RUNS(0, 0); ACC_OK; COMMON_END(1); }
+#endif
 #ifdef DRV_future_ctor
 void h_drive(void) { cv_i32 x = nondet_unsigned(); drive_reset(); cv_i32 r = drive_future_ctor(x); __CPROVER_assert(r == 1, "scenario completed");
   RUNS(0, 1); __CPROVER_assert(G_g_seen_value == (cv_i32)(x + 1), "future(async): the value reaches the constructed future"); COMMON_END(1); }
